@@ -97,7 +97,7 @@ PLAN = {
         "assumptions": ["gauge arithmetic judged only on exactly representable values", "linearizability search budget 200k states per history; overrun = inconclusive"],
         "legs": [
             {"name": "native", "flavour": "native", "shards": 4, "shards_thorough": 16},
-            {"name": "miri", "flavour": "miri", "shards": 6, "shards_thorough": 32, "timeout": 1200},
+            {"name": "miri", "flavour": "miri", "shards": 6, "shards_thorough": 32, "miriflags": TB + " " + IGN, "timeout": 1200},
             {"name": "tsan", "flavour": "tsan", "shards": 2, "shards_thorough": 8, "scale": 0.05, "timeout": 1200, "thorough_only": True},
             {"name": "memcheck", "leg": "tsan", "flavour": "memcheck", "shards": 4, "shards_thorough": 8, "scale": 0.1, "timeout": 1800, "thorough_only": True},
         ],
